@@ -23,8 +23,8 @@ META = {
     "what the reference evaluator produces with the same hook; operators outside the subset must never be logged.",
     "note": "Environments come in two flavours (hook delegating to the stock operator tables / hook computing the result "
     "itself with the intercepted operators removed from binop_table/unop_table); templates are built from source and, for "
-    "shapes with constant leaves, also from a node tree parsed by a plain non-sandboxed Environment (thorough: also a tree "
-    "with no environment attached). Bounded: depth <= 2, 4 leaf vectors, 2 data assignments (ints; a string for x), 6 placements (quick: one "
+    "shapes with constant leaves, also from a node tree parsed by a plain non-sandboxed Environment (thorough, subsets of size 0,1,2,9: "
+    "also a tree with no environment attached, and both flavours on every case). Bounded: depth <= 2, 4 leaf vectors, 2 data assignments (ints; a string for x), 6 placements (quick: one "
     "placement per template in rotation, thorough: all); the one shape with three `**` is excluded. Trusts Python's "
     "operators on ints/floats/strings.",
     "design_ref": "DESIGN.md §4 C20",
@@ -302,15 +302,17 @@ def shard(arg):
         for vname, vec in LEAF_VECS.items():
             ast = G.fill(shape, vec)
             case += 1
-            # quick: the two table modes alternate over the cases, one placement per case in rotation;
-            # thorough: both table modes, all placements
-            modes = (("stock", "removed")[case % 2],) if quick else ("stock", "removed")
-            # templates whose expression has constant leaves are additionally built from a node tree that was parsed
-            # by a plain Environment (and, thorough, from a tree with no environment attached)
+            # the two table modes alternate over the cases (thorough: both for subsets of size 0,1,2,9);
+            # quick: one placement per case in rotation, thorough: all placements
+            rich = (not quick) and len(subset) in (0, 1, 2, 9)
+            modes = ("stock", "removed") if rich else (("stock", "removed")[case % 2],)
+            # templates whose expression has only constant leaves are additionally built from a node tree that was
+            # parsed by a plain Environment; for the small/full subsets in thorough also the mixed shapes, and a tree
+            # with no environment attached
             routes = ["source"]
-            if vname == "const" or (not quick and vname in ("cv", "vc")):
+            if (vname == "const" and (quick or rich or case % 2 == 0)) or (rich and vname in ("cv", "vc")):
                 routes.append("foreign-ast")
-            if not quick and vname == "const":
+            if rich and vname == "const":
                 routes.append("detached-ast")
             for mode in modes:
                 cls = classes[mode]
@@ -358,6 +360,8 @@ def run(ctx: core.Ctx):
     ctx.cov["bounds"] = {"subsets": len(subs), "subset_sizes": "0,1,2,9" if ctx.quick else "all 512",
                          "shapes": SPACE.count(), "leaf_vectors": list(LEAF_VECS), "data_assignments": len(DATA),
                          "placements": list(PLACEMENTS), "placements_per_template": "1 (rotating)" if ctx.quick else "6",
-                         "table_modes": "stock / intercepted entries removed" + (" (alternating)" if ctx.quick else " (both)"),
+                         "table_modes": "stock / intercepted entries removed, alternating over the cases"
+                         + ("" if ctx.quick else "; both for subsets of size 0,1,2,9"),
                          "build_routes": "source; + AST parsed by a plain Environment for constant-leaf shapes"
-                         + ("" if ctx.quick else " and mixed shapes; + detached AST for constant-leaf shapes")}
+                         + ("" if ctx.quick else " (every second one for subsets of size 3..8); for subsets of size "
+                                                 "0,1,2,9 also mixed shapes and a detached AST")}
